@@ -17,7 +17,7 @@ THEOREMS = [
     'Pfst.C05.mode_total', 'Pfst.C05.modes_match_spec', 'Pfst.C05.class_modes_match_spec', 'Pfst.C05.wrappers_sound',
     'Pfst.C05.wrappers_observed', 'Pfst.C05.b2c_c2b_boundary', 'Pfst.C05.fixSeq_trailing', 'Pfst.C05.fixSeq_no_trailing',
     'Pfst.C05.trailing_sep_spec', 'Pfst.C05.trailing_comma_spec', 'Pfst.C05.trailing_semicolon_spec',
-    'Pfst.C05.trailing_sep_same_language', 'Pfst.C05.trailing_sep_blanks', 'Pfst.C05.verify_comments_irrelevant',
+    'Pfst.C05.trailing_sep_same_language', 'Pfst.C05.trailing_sep_blanks', 'Pfst.C05.verify_comments_irrelevant', 'Pfst.C05.arg_single',
 ]
 RULE = ('(1) whole programs (snippets, generated, layout-mutated, commented, multi-byte, stdlib chunks) through exec/stmts/strict/'
         'all/eval/single and FST(src): source unchanged, tree == ast.parse with positions; (2) for every extended mode, fragments '
@@ -498,7 +498,8 @@ def _native_worker(src):
     # strict / all / FST(src): documented reduction
     body = ref.body
     if len(body) == 1 and isinstance(body[0], ast.Expr):
-        red = None if _has_semicolon_after(src, body[0].value) else body[0].value
+        # a single expression statement terminated by ';' is not an expression (`a ;` does not parse as one): it stays an Expr
+        red = body[0] if _has_semicolon_after(src, body[0].value) else body[0].value
     elif len(body) == 1:
         red = body[0]
     else:
@@ -595,8 +596,53 @@ def invalid_data_strings():
     return out
 
 
+def semicolon_product():
+    """one statement / element, layout trivia, then ';' (and what may follow): every kind of trivia between the node and the
+    separator - blanks, closing parentheses, line continuations, comment lines"""
+    out = []
+    heads = ['a', 'f(x)', 'a, b', '"é"', '(a)', '(a\n)', 'a.b as c', 'a as b', 'é', 'x = 1', 'a,', '*a', 'yield', 'lambda: a']
+    trivia = ['', ' ', ' \\\n', ' \\\n    ', '\\\n\\\n', ') \\\n']
+    tails = ['', '\n', ' # c', ' b']
+    for h in heads:
+        for t in trivia:
+            for tl in tails:
+                out.append(h + t + ';' + tl)
+    return out
+
+
+def sibling_product():
+    """a valid single element of a single-element mode with ONE extra sibling of every kind the container can hold, before
+    and after it, in several layouts: never a single element"""
+    fam = {
+        'arg': (['a', 'a: int', 'args: *Ts', 'é: "ü"'], ['b', '/', '*', '*c', '**k', 'b=1', 'c: int', '*c: *Us', '**k: int', '*, d']),
+        'keyword': (['k=v', '**d', 'é="ü"'], ['a', '*a', 'j=1', '**e', '"é"']),
+        'withitem': (['a', 'a as b', '(a := 1)', 'f("é") as ü'], ['c', 'c as d', '(yield)']),
+        'type_param': (['T', 'T: int', '*Ts', '**P'], ['U', 'U: str', '*Us', '**Q']),
+        '_arglike': (['a', '*a', 'k=v', '**d', '*not a'], ['b', '*b', 'j=1', '**e']),
+        'alias': (['a', 'a.b as c', 'a as b'], ['d', 'd as e', 'd.e']),
+        'comprehension': (['for a in b', 'async for a in b if c'], ['for c in d', 'if e', 'async for x in y']),
+        'ExceptHandler': (['except A: pass', 'except: pass'], ['except B as b: pass', 'else: pass', 'finally: pass']),
+        'match_case': (['case 1: pass', 'case a if b: pass'], ['case _: pass', 'case [x]: pass']),
+        'stmt': (['a = 1', 'pass', 'if a: pass'], ['b', 'import c', 'x: int']),
+    }
+    out = []
+    for mode, (heads, sibs) in fam.items():
+        block = mode in ('ExceptHandler', 'match_case', 'stmt')
+        sp = [' ', '\n'] if mode == 'comprehension' else ['\n'] if block else [', ', '  # c é\n, ']
+        for h in heads:
+            for sb in sibs:
+                for sep in sp:
+                    out.append(h + sep + sb)
+                    out.append(sb + sep + h)
+    return out
+
+
 def generated_malformed(rng, n_random):
     out = []
+    for s in semicolon_product():
+        out.append(('semicolon:' + F.shape(s), s))
+    for s in sibling_product():
+        out.append(('siblings:' + F.shape(s), s))
     pairs = [(')', '('), (']', '['), ('}', '{')]
     mids = ['', '+', ',', '=', ' if ', ':', ' as c,', '->', ' for x in ', '.', ' and ', ' or ', '|', ':=', ' in ', '*']
     pres = ['', 'a', 'a,', 'a,b', 'a=1', '*a', 'a as b', 'x for x in y', 'a:b', '1', 'é', '"é"', 'T: int', '@a', 'if a', 'for a in b']
@@ -1003,6 +1049,36 @@ def correspondence(ctx):
     ctx.notes['fix_seq_calls'] = len(rec)
     ctx.notes['fix_seq_raises'] = sum(1 for _, o in rec if o is None)
     ctx.notes['fix_seq_nonascii_multiline'] = sum(1 for c, o in rec if o and len(c['lines']) > 1 and any(not l.isascii() for l in c['lines']))
+    # (i) parse_arg's "exactly one parameter" check on both of its paths: CPython's arguments shape of the wrapper -> model verdict
+    def _shape(a):
+        return [len(a.posonlyargs), len(a.args), int(a.vararg is not None), len(a.kwonlyargs), len(a.kw_defaults), int(a.kwarg is not None),
+                len(a.defaults)]
+
+    atoms = ['a', 'b: int', 'c=1', '/', '*', '*d', '**k', 'e: "é"', '*f: *Ts', 'args: *Ts', '**k: int', 'g: int = 2']
+    texts = set(sibling_product()[:0])
+    for _ in range(300 if q else 3000):
+        texts.add(', '.join(rng.sample(atoms, rng.randint(1, 3))))
+    texts.update(t for t in sibling_product() if ':' in t or '*' in t or t[:1] in 'ab')
+    cases, impl = [], []
+    for T in sorted(texts):
+        m = F._p('def f(\n' + T + '\n): pass')
+        star = False
+        if m is None:
+            m = F._p('def f(*\n' + T + '\n): pass')
+            star = True
+        if m is None or len(m.body) != 1 or not isinstance(m.body[0], ast.FunctionDef) or m.body[0].returns is not None:
+            continue
+        try:
+            px.parse_arg(T)
+            r = True
+        except SyntaxError:
+            r = False
+        except Exception as e:
+            r = 'exc:' + type(e).__name__
+        cases.append({'f': 'C05.arg_check', 'shape': _shape(m.body[0].args), 'star': star, 'src': T})
+        impl.append(r)
+    ctx.compare("parse_arg accepts vs Pfst.ParseWrap.argNormalOk/argStarOk on CPython's arguments shape", cases, impl,
+                keyf=lambda c: c['src'], nontrivial=lambda c, o: c['star'] or o is True)
     # (f) rebasing: Lean rebaseAt on CPython's positions of the full program == positions pfst returns for the fragment
     cases, impl = [], []
     for src in progs[:40 if q else 300] + EXTRA:
@@ -1038,7 +1114,7 @@ def _programs(ctx, n, stdlib):
 def _run_all(ctx, nprog, nstd, per_kind, cap, n_random_mal, n_phrase_jobs=48, n_phrase=40):
     progs = _programs(ctx, nprog, nstd)
     # (1)
-    rows = [r for lst in pmap(_native_worker, progs) for r in lst]
+    rows = [r for lst in pmap(_native_worker, progs + [t for t in semicolon_product() if F._p(t) is not None]) for r in lst]
     _report_native(ctx, rows)
     ctx.notes['native_checks'] = len(rows)
     # (2)
